@@ -106,7 +106,7 @@ def observed(tr):
     return tuple(out)
 
 
-def random_cfgs(tier, base_id, algos=("SOO", "StoSOO", "DOO"), neg=False):
+def random_cfgs(tier, base_id, algos=("SOO", "StoSOO", "DOO"), neg=False, allq=False):
     rnd = random.Random(C.seed() + 71 + (5 if neg else 0))
     cfgs = []
     i = base_id
@@ -134,7 +134,7 @@ def random_cfgs(tier, base_id, algos=("SOO", "StoSOO", "DOO"), neg=False):
             pat = rnd.choice(["g01", "peak", "flat", "tied", "gneg", "const"])
             shift = rnd.choice([0, 0, -1, -2]) if not neg else rnd.choice([-1, -2, -3])
             cfgs.append({"id": i, "algo": algo, "kind": kind, "K": Kk, "D": D, "box": box, "n": n, "T": n if rnd.random() < 0.8 else rnd.randint(3, n), "prm": prm, "pattern": pat, "shift": shift,
-                         "seed": rnd.randrange(1 << 30), "queries": sorted(rnd.sample(range(3, n), 3)) if rep % 3 == 0 else [], "rtype": [None, "f32", "f64", "i64", "int", None][rep % 6]})
+                         "seed": rnd.randrange(1 << 30), "queries": sorted(rnd.sample(range(3, n), 3)) if rep % 3 == 0 else (list(range(n)) if allq and rep % 3 == 1 else []), "rtype": [None, "f32", "f64", "i64", "int", None][rep % 6]})
     return cfgs
 
 
